@@ -133,6 +133,10 @@ structure St where
   -- data processors installed in the projectors
   pre : ProcKind := .none
   post : ProcKind := .none
+  -- histories: matrix objects that live through several set_ups (`MatrixObj`, rows kept as the transmitted text) and the
+  -- rows of a fresh matrix per geometry, `(geometry id, seg, view, ax, tang, tof) ↦ row`
+  mobjs : Std.HashMap Nat (MatrixObj Nat String) := {}
+  mtab : Std.HashMap (Nat × Int × Int × Int × Int × Int) (Row String) := {}
 
 def St.nvox (s : St) : Nat := ((s.zmax - s.zmin + 1) * (s.ymax - s.ymin + 1) * (s.xmax - s.xmin + 1)).toNat
 
@@ -243,6 +247,25 @@ def parseRowElem (tok : String) : Option (Vox × Rat) :=
 
 def bin5 (s v a t k : String) : Bin := ⟨I s, I v, I a, I t, I k⟩
 
+/-- a row kept as text: `z,y,x:<hex>` ↦ `((z, y, x), "<hex>")` -/
+def parseRowElemS (tok : String) : Option (Vox × String) :=
+  match tok.splitOn ":" with
+  | [c, w] =>
+    match c.splitOn "," with
+    | [z, y, x] => some ((I z, I y, I x), w)
+    | _ => none
+  | _ => none
+
+def fmtRowS (r : Row String) : String :=
+  " ".intercalate (r.map fun e => s!"{e.1.1},{e.1.2.1},{e.1.2.2}:{e.2}")
+
+/-- the matrix type and the symmetries as data for the history operations: the rows of a fresh matrix per geometry are
+    transmitted for the very bins that are requested, every bin counts as basic (the symmetry operations are C03's subject) -/
+def St.mdata (s : St) : MatrixData Nat String :=
+  { compute := fun g b => (s.mtab.get? (g, b.seg, b.view, b.ax, b.tang, b.tof)).getD [((0, 0, 0), "missing")],
+    basicOf := fun _ b => b,
+    transform := fun _ _ r => r }
+
 def stepLine (st : St) (line : String) : St × String :=
   let toks := (line.trimAscii.toString.splitOn " ").filter (· ≠ "")
   match toks with
@@ -300,6 +323,26 @@ def stepLine (st : St) (line : String) : St × String :=
     let l := rest.map pair
     ({ st with relR := st.relR.insert (I a, I t) l }, toString l.length)
   | ["cache", c] => ({ st with cache := c == "1" }, "ok")
+  -- histories of one matrix object: construction, set_up (base class / ray tracing version), row request
+  | ["mnew", o, ce, ob] =>
+    ({ st with mobjs := st.mobjs.insert (I o).toNat (MatrixObj.new (ce == "1") (ob == "1")) }, "ok")
+  | ["mset", o, g, rt] =>
+    match st.mobjs.get? (I o).toNat with
+    | some m =>
+      let m' := if rt == "1" then m.setUpRT (I g).toNat else m.setUp (I g).toNat
+      ({ st with mobjs := st.mobjs.insert (I o).toNat m' }, "ok")
+    | none => (st, "err")
+  | "mdef" :: g :: s :: v :: a :: t :: k :: elems =>
+    let es := elems.filterMap parseRowElemS
+    if es.length ≠ elems.length then (st, "bad-row")
+    else ({ st with mtab := st.mtab.insert ((I g).toNat, I s, I v, I a, I t, I k) es }, toString es.length)
+  | ["mget", o, s, v, a, t, k] =>
+    match st.mobjs.get? (I o).toNat with
+    | some m =>
+      match m.getRow st.mdata (bin5 s v a t k) with
+      | some (r, m') => ({ st with mobjs := st.mobjs.insert (I o).toNat m' }, fmtRowS r)
+      | none => (st, "err")
+    | none => (st, "err")
   | "img" :: name :: vals =>
     let a := (vals.map fun s => ((I s : Int) : Rat)).toArray
     ({ st with imgs := st.imgs.insert name a }, s!"ok {a.size}")
